@@ -52,6 +52,24 @@ fn main() {
             }
             0
         }
+        [d, dir] if d == "--dump-fuzz-seeds" => {
+            // seeds and dictionary for fuzz/fuzz_targets/compile.rs: byte 0 = 40 (scss, expanded, precision 10)
+            let _ = std::fs::create_dir_all(format!("{dir}/fuzz-seeds"));
+            for (i, src) in corpus::corpus().iter().enumerate() {
+                if src.len() < 20_000 {
+                    let mut d = vec![if i % 7 == 0 { 42u8 } else { 40u8 }];
+                    d.extend_from_slice(src);
+                    let _ = std::fs::write(format!("{dir}/fuzz-seeds/s{i:05}"), d);
+                }
+            }
+            let mut dict = String::new();
+            for (i, t) in props::c01::dict().iter().enumerate() {
+                let esc: String = t.bytes().map(|b| if b.is_ascii_alphanumeric() || b" @#{}()[].!$&%:;,*+-/=<>~|_".contains(&b) { (b as char).to_string() } else { format!("\\x{b:02x}") }).collect();
+                dict.push_str(&format!("t{i}=\"{esc}\"\n"));
+            }
+            let _ = std::fs::write(format!("{dir}/fuzz.dict"), dict);
+            0
+        }
         [h] if h == "--history" => props::c05::main_history(),
         [w, id] if w == "--worker" => props::dispatch(id, props::Mode::Worker),
         [id, r, path] if r == "--replay" => props::dispatch(id, props::Mode::Replay(path.clone())),
